@@ -12,6 +12,7 @@ CONSTANTS
   MayRevert = {}
   CheckAdmission = FALSE
   BestChoices = {TRUE, FALSE}
+  ChildOfBestIsBest = FALSE
   UseConflicts = FALSE
   TxTable <- TxTable0
 SYMMETRY ReaderSym
@@ -22,4 +23,5 @@ INVARIANT HeadsAreLeaves
 INVARIANT ReaderTracks
 INVARIANT ReaderConverges
 INVARIANT ReadLands
+INVARIANT DrainConverges
 CHECK_DEADLOCK FALSE
